@@ -72,9 +72,10 @@ using overflow_checker = conditional_t<
 } // namespace detail
 
 struct to_integer_options {
-    bool skip_whitespace = true;
-    bool check_overflow  = true;
-    bool allow_plus_sign = true;
+    bool skip_whitespace  = true;
+    bool check_overflow   = true;
+    bool allow_plus_sign  = true;
+    bool allow_hex_prefix = true;
 };
 
 enum struct to_integer_error : unsigned char {
@@ -136,6 +137,15 @@ template <integral Int, to_integer_options Options = to_integer_options{}>
             if (++pos == length) {
                 // plus "+" was last character in string
                 return makeError(to_integer_error::invalid_input);
+            }
+        }
+    }
+
+    // optional "0x" or "0X" in front of a hexadecimal number
+    if constexpr (Options.allow_hex_prefix) {
+        if (base == Int(16) and length - pos > 2 and str[pos] == '0' and (str[pos + 1] == 'x' or str[pos + 1] == 'X')) {
+            if (parseDigit(static_cast<int>(str[pos + 2])) < Int(16)) {
+                pos += 2;
             }
         }
     }
